@@ -17,8 +17,8 @@ RULE = ("templates of 1-15 operations on 1-5 modes whose positional arguments ar
         "parameters repeated across operations and positions, constants elsewhere; generic real values; the instance itself and 2 (quick) / 6 "
         "(thorough) random linear extensions of its per-mode order; one structural edit per negative case; non-trivial = >=3 operations, a "
         "repeated parameter and (a reordering that differs from the identity or a negative case); distinct by SHA-1 of template+values+order")
-BUDGET = {"quick": 400, "thorough": 12000}
-MIN_NONTRIVIAL = {"quick": 200, "thorough": 3000}
+BUDGET = {"quick": 400, "thorough": 4000}
+MIN_NONTRIVIAL = {"quick": 200, "thorough": 1500}
 REQUIRED_FUNCTIONS = ["utils.py:match_template", "utils.py:to_DiGraph", "program.py:BlackbirdProgram.__call__"]
 FUNCTIONS = REQUIRED_FUNCTIONS + ["utils.py:match_template.<locals>.node_match"]
 REQUIRED_TAGS = ["reordered", "repeated-parameter", "form:bare", "form:negated", "form:affine", "form:divided", "neg:gate", "neg:modes", "neg:modes-permuted", "neg:modes-same-digits", "neg:order", "neg:version", "neg:version-same-value", "neg:target"]
